@@ -1192,10 +1192,13 @@ func YAMLExact(v any) bool {
 			return false
 		}
 		fr := new(big.Rat)
-		if fr.SetFloat64(f) == nil {
+		if fr.SetFloat64(f) == nil || fr.Cmp(r) != 0 {
 			return false
 		}
-		return fr.Cmp(r) == 0
+		// a YAML->JSON bridge has to print the float64 again: only values whose shortest
+		// round-trip decimal is the exact value survive that textually (2^64 does not: ...552000)
+		sr, ok := parseRat(strconv.FormatFloat(f, 'f', -1, 64))
+		return ok && sr.Cmp(r) == 0
 	case map[string]any:
 		for _, c := range x {
 			if !YAMLExact(c) {
